@@ -71,14 +71,14 @@ TEXT = {
             'clause (client receives it without sending the body) is exercised by the server correspondence.',
             'DESIGN.md section 5 C13', 'Coq proof (iff + run invariant) + differential run with output flushed between header block and body'),
     'C02': ('Coq theorems: a request line is accepted iff it is METHOD SP URI SP VERSION with table METHOD/VERSION and a '
-            'non-empty UTF-8 URI without SP, fields verbatim; error precedence shape > method > URI > version; shape '
-            'characterised by the first two SP; every well-formed encoding (lines within the limit, headers acceptable under '
-            'the C15 rules, body of exactly Content-Length <= L bytes) is delivered verbatim and parsing continues on the rest '
-            '(pipelining), for every stream length; carried to every read schedule of the implementation model by C01. '
-            'PARTIAL: the converse (delivered => the stream has that form) and the whole-stream first-error theorem are not '
-            'single Coq statements; they are decided per run by comparing the implementation with an independent Python '
-            'recogniser of the grammar on generated and corrupted streams.', 'DESIGN.md section 5 C02',
-            'Coq proof (bi-implications for the request line, forward theorem for whole requests) + independent recogniser oracle'),
+            'non-empty UTF-8 URI without SP, fields verbatim; error precedence shape > method > URI > version; and the grammar as '
+            'an EQUIVALENCE for whole streams of any length: the first request the whole-stream parser delivers is x iff the '
+            'stream starts with a well-formed encoding of x (lines within the limit, headers acceptable under the C15 rules, body '
+            'of exactly Content-Length <= L bytes), delivered verbatim, parsing continuing on the rest (pipelining); carried to every '
+            'read schedule of the implementation model by C01. Only the stream-level "first offending element" statement is not a '
+            'single theorem (its ingredients are); the implementation is compared with an independent Python recogniser of the '
+            'grammar, error kinds included, on generated and corrupted streams.', 'DESIGN.md section 5 C02',
+            'Coq proof (grammar as a bi-implication by inversion of the step function) + independent recogniser oracle'),
     'C03': ('Coq theorems: Request::try_from reaches none of its 7 modelled panic sites for any bytes and max_len (CRLFCRLF '
             'offset lemma); from every state satisfying the connection invariant, every call (try_read with any result within '
             'recvmsg\'s contract, try_write with any result within write\'s contract, enqueue, pop, clear, set limit) keeps the '
@@ -87,12 +87,13 @@ TEXT = {
             'Panics inside std and allocation failure are not modelled. Implementation run with catch_unwind and overflow '
             'checks on random/mutated bytes through all public parsers and random call sequences.',
             'DESIGN.md section 5 C03', 'Coq proof (invariant preservation over all calls; explicit panic outcomes) + catch_unwind run'),
-    'C14': ('PARTIAL. Coq theorems: max_len rule; totality of the one-shot parser; both parsers share the request-line function '
-            'and the header-line fold; the connection\'s behaviour on a well-formed slice (C02). The two implications of the '
-            'property are not proved as theorems (the CRLFCRLF/split equivalence was not completed); they are decided on every '
-            'run by executing both entry points of the implementation on the same slices and comparing field by field '
-            '(the oracle is the property), together with model-vs-implementation correspondence for both entry points.',
-            'DESIGN.md section 5 C14', 'differential comparison of the two entry points + Coq lemmas (partial proof)'),
+    'C14': ('Coq theorems: whenever Request::try_from accepts a slice, the connection parser fed the same bytes (lines within '
+            'the line limit, declared length within the payload limit) delivers as its first request exactly the same request '
+            '(all fields and body) -- proved through a characterisation of split("\\r\\n"), the "first CRLFCRLF" cut and the C02 '
+            'grammar equivalence; max_len rule; totality of the one-shot parser. PARTIAL: the converse implication (connection '
+            'delivers exactly one request, nothing left => one-shot accepts, except GET with a body) is decided on every run by '
+            'executing both entry points of the implementation on the same slices and comparing field by field.',
+            'DESIGN.md section 5 C14', 'Coq proof (one direction) + differential comparison of the two entry points'),
     'C15': ('Coq theorems about parse_header_line / headers_try_from / encoding_try_from: names classified identically up to '
             'ASCII case (UTF-8 validity invariant under lower-casing) and through trim; invalid UTF-8 and missing colon fatal '
             '(iff); Content-Length accepted iff u32::from_str grammar (characterised); Accept-Encoding fatal iff empty or a '
